@@ -11,14 +11,17 @@ def core (s : St) :
     Nat × List Entry × List Entry × List Entry × List Entry × List LogEntry × List Timer × Phase × Bool :=
   (s.now, s.rq, s.iq, s.lq, s.dq, s.log, s.timers, s.phase, s.lflag)
 
-/-- every runnable / deferred task became runnable in the current instant, no observation so far was late, every
-pending timer lies in the future -/
+/-- every runnable / deferred task became runnable in the current instant - or was woken by another module's event
+(origin `.foreign`: no event of this module was being processed) -, no observation so far was late with the same
+exemption, every pending timer lies in the future -/
 def Inv (s : St) : Prop :=
-  (∀ e ∈ s.rq, e.ready = s.now) ∧ (∀ e ∈ s.iq, e.ready = s.now) ∧ (∀ e ∈ s.lq, e.ready = s.now) ∧
-  (∀ e ∈ s.dq, e.ready = s.now) ∧ (∀ x ∈ s.log, x.time = x.ready) ∧ (∀ tm ∈ s.timers, s.now < tm.deadline)
+  (∀ e ∈ s.rq, e.origin = .foreign ∨ e.ready = s.now) ∧ (∀ e ∈ s.iq, e.origin = .foreign ∨ e.ready = s.now) ∧
+  (∀ e ∈ s.lq, e.origin = .foreign ∨ e.ready = s.now) ∧ (∀ e ∈ s.dq, e.ready = s.now) ∧
+  (∀ x ∈ s.log, x.origin = .foreign ∨ x.time = x.ready) ∧ (∀ tm ∈ s.timers, s.now < tm.deadline)
 
-/-- no observation was made later than the instant at which the awaited condition became true -/
-def OnTime (s : St) : Prop := ∀ x ∈ s.log, x.time = x.ready
+/-- no observation was made later than the instant at which the awaited condition became true, unless it became
+true through another module's event -/
+def OnTime (s : St) : Prop := ∀ x ∈ s.log, x.origin = .foreign ∨ x.time = x.ready
 
 /-- the `local_work` flag covers the LocalSet queue -/
 def FL (s : St) : Prop := s.lq = [] ∨ s.lflag = true
@@ -70,7 +73,8 @@ theorem keeps_of_core {c : Prop} (s s' : St) (h : core s' = core s) : Keeps c s 
   rw [h4, h9]
   exact hf
 
-theorem keeps_pushEntry (s : St) (e : Entry) : Keeps (e.ready = s.now) s (pushEntry s e) := by
+theorem keeps_pushEntry (s : St) (e : Entry) :
+    Keeps (e.origin = .foreign ∨ e.ready = s.now) s (pushEntry s e) := by
   unfold pushEntry
   cases hk : e.kind
   · simp only
@@ -91,7 +95,8 @@ theorem keeps_pushEntry (s : St) (e : Entry) : Keeps (e.ready = s.now) s (pushEn
       rcases hx with hx | hx
       · exact h1 x hx
       · subst hx; exact he
-  · have hinv : ∀ (l : Bool), e.ready = s.now → Inv s → Inv { s with lq := s.lq ++ [e], lflag := l } := by
+  · have hinv : ∀ (l : Bool), (e.origin = .foreign ∨ e.ready = s.now) → Inv s →
+        Inv { s with lq := s.lq ++ [e], lflag := l } := by
       rintro l he ⟨h1, h2, h3, h4, h5, h6⟩
       refine ⟨h1, h2, ?_, h4, h5, h6⟩
       intro x hx
@@ -106,8 +111,8 @@ theorem keeps_pushEntry (s : St) (e : Entry) : Keeps (e.ready = s.now) s (pushEn
       exact ⟨hinv s.lflag, rfl, by simp, rfl, fun hp' _ => absurd hp' hp⟩
 
 theorem keeps_enqueue {c : Prop} (s : St) (k : Kind) (i : Nat) : Keeps c s (enqueue s k i) :=
-  keeps_mono (c' := (⟨k, i, s.now, s.phase⟩ : Entry).ready = s.now) (fun _ => rfl)
-    (keeps_pushEntry s ⟨k, i, s.now, s.phase⟩)
+  keeps_mono (c' := (⟨k, i, s.now, s.phase⟩ : Entry).origin = .foreign ∨ (⟨k, i, s.now, s.phase⟩ : Entry).ready = s.now)
+    (fun _ => Or.inr rfl) (keeps_pushEntry s ⟨k, i, s.now, s.phase⟩)
 
 theorem keeps_defer {c : Prop} (s : St) (k : Kind) (i : Nat) : Keeps c s (defer s k i) := by
   unfold defer
@@ -120,7 +125,8 @@ theorem keeps_defer {c : Prop} (s : St) (k : Kind) (i : Nat) : Keeps c s (defer 
   · exact h4 x hx
   · subst hx; rfl
 
-theorem keeps_logAt (s : St) (i rdy : Nat) (org : Phase) : Keeps (rdy = s.now) s (logAt s i rdy org) := by
+theorem keeps_logAt (s : St) (i rdy : Nat) (org : Phase) :
+    Keeps (org = .foreign ∨ rdy = s.now) s (logAt s i rdy org) := by
   unfold logAt
   refine ⟨?_, rfl, Nat.le_refl _, rfl, fun _ h => h⟩
   rintro h ⟨h1, h2, h3, h4, h5, h6⟩
@@ -128,7 +134,10 @@ theorem keeps_logAt (s : St) (i rdy : Nat) (org : Phase) : Keeps (rdy = s.now) s
   intro x hx
   simp only [List.mem_cons] at hx
   rcases hx with hx | hx
-  · subst hx; exact h.symm
+  · subst hx
+    rcases h with h | h
+    · exact Or.inl h
+    · exact Or.inr h.symm
   · exact h5 x hx
 
 theorem mem_insertTimer (tm x : Timer) : ∀ l : List Timer, x ∈ insertTimer tm l ↔ x = tm ∨ x ∈ l := by
@@ -175,13 +184,35 @@ theorem keeps_spawnTask {c : Prop} (s : St) (t : Nat) : Keeps c s (spawnTask s t
     · exact keeps_refl s
     · (refine keeps_trans ?_ (keeps_enqueue _ _ _); exact keeps_of_core s _ rfl)
 
+theorem keeps_grant {c : Prop} (s : St) (wk : Kind) (wi : Nat) : Keeps c s (grant s wk wi) := by
+  unfold grant
+  split
+  · exact keeps_enqueue _ _ _
+  · (refine keeps_trans ?_ (keeps_enqueue _ _ _); exact keeps_of_core s _ rfl)
+
 theorem keeps_wakeCond {c : Prop} (s : St) (k : Nat) : Keeps c s (wakeCond s k) := by
   unfold wakeCond
   split
   · exact keeps_refl s
   · split
     · exact keeps_of_core s _ rfl
-    · (refine keeps_trans ?_ (keeps_enqueue _ _ _); exact keeps_of_core s _ rfl)
+    · (refine keeps_trans ?_ (keeps_grant _ _ _); exact keeps_of_core s _ rfl)
+
+theorem keeps_grantAll {c : Prop} : ∀ (l : List (Kind × Nat)) (s : St), Keeps c s (grantAll l s) := by
+  intro l
+  induction l with
+  | nil => intro s; exact keeps_refl s
+  | cons a l ih =>
+    intro s
+    obtain ⟨wk, wi⟩ := a
+    simp only [grantAll]
+    exact keeps_trans (keeps_grant s wk wi) (ih _)
+
+theorem keeps_wakeAll {c : Prop} (s : St) (k : Nat) : Keeps c s (wakeAll s k) := by
+  unfold wakeAll
+  split
+  · exact keeps_refl s
+  · (refine keeps_trans ?_ (keeps_grantAll _ _); exact keeps_of_core s _ rfl)
 
 theorem keeps_finish {c : Prop} (s : St) (i : Nat) : Keeps c s (finish s i) := by
   unfold finish
@@ -192,16 +223,25 @@ theorem keeps_finish {c : Prop} (s : St) (i : Nat) : Keeps c s (finish s i) := b
     · exact keeps_of_core s _ rfl
     · (refine keeps_trans ?_ (keeps_enqueue _ _ _); exact keeps_of_core s _ rfl)
 
-/-- a poll whose reason (`rdy`) is the current instant keeps the invariant -/
+/-- a poll whose reason is the current instant (or a wake by another module's event) keeps the invariant -/
 theorem keeps_runProg (k : Kind) (i : Nat) :
     ∀ (p : List Instr) (c rdy : Nat) (org : Phase) (s : St),
-      Keeps (rdy = s.now) s (runProg k i p c rdy org s) := by
+      Keeps (org = .foreign ∨ rdy = s.now) s (runProg k i p c rdy org s) := by
   intro p
   induction p with
   | nil => intro c rdy org s; exact keeps_finish s i
   | cons ins r ih =>
     intro c rdy org s
-    have hsp : Keeps (rdy = s.now) s (setProg s i r) := keeps_of_core s _ (core_setProg s i r)
+    have hsp : Keeps (org = .foreign ∨ rdy = s.now) s (setProg s i r) := keeps_of_core s _ (core_setProg s i r)
+    -- consume the instruction, log, continue
+    have hcont : ∀ (c' : Nat) (s1 : St), Keeps (org = .foreign ∨ rdy = s.now) s s1 →
+        Keeps (org = .foreign ∨ rdy = s.now) s
+          (runProg k i r c' s.now s.phase (logAt (setProg s1 i r) i rdy org)) := by
+      intro c' s1 h0
+      have h1 := keeps_trans h0 (keeps_of_core _ _ (core_setProg s1 i r))
+      have h2 := keeps_trans h1
+        (keeps_mono (fun hr => by rw [h1.2.1]; exact hr) (keeps_logAt (setProg s1 i r) i rdy org))
+      exact keeps_trans h2 (keeps_mono (fun _ => Or.inr h2.2.1.symm) (ih c' s.now s.phase _))
     cases ins with
     | spawn t =>
       simp only [runProg]
@@ -211,14 +251,16 @@ theorem keeps_runProg (k : Kind) (i : Nat) :
       simp only [runProg]
       have h1 := keeps_trans hsp (keeps_wakeCond (setProg s i r) q)
       exact keeps_trans h1 (keeps_mono (fun hr => by rw [h1.2.1]; exact hr) (ih c rdy org _))
+    | notifyAll q =>
+      simp only [runProg]
+      have h1 := keeps_trans hsp (keeps_wakeAll (setProg s i r) q)
+      exact keeps_trans h1 (keeps_mono (fun hr => by rw [h1.2.1]; exact hr) (ih c rdy org _))
     | yield =>
       simp only [runProg]
       (refine keeps_trans ?_ (keeps_defer _ _ _); exact keeps_of_core s _ (core_setProg s i _))
     | resume =>
       simp only [runProg]
-      have h1 := keeps_trans hsp
-        (keeps_mono (fun hr => by rw [hsp.2.1]; exact hr) (keeps_logAt (setProg s i r) i rdy org))
-      exact keeps_trans h1 (keeps_mono (fun _ => h1.2.1.symm) (ih c s.now s.phase _))
+      exact hcont c s (keeps_refl s)
     | wait q =>
       simp only [runProg]
       split
@@ -227,53 +269,60 @@ theorem keeps_runProg (k : Kind) (i : Nat) :
         split
         · exact keeps_defer s k i
         · split
-          · exact keeps_of_core s _ rfl
-          · have h0 : Keeps (rdy = s.now) s
-                { s with conds := s.conds.set q { cd with permits := cd.permits - 1 } } :=
-              keeps_of_core s _ rfl
-            have h1 := keeps_trans h0 (keeps_of_core _ _ (core_setProg _ i r))
-            have h2 := keeps_trans h1
-              (keeps_mono (fun hr => by rw [h1.2.1]; exact hr) (keeps_logAt _ i rdy org))
-            exact keeps_trans h2 (keeps_mono (fun _ => h2.2.1.symm) (ih _ s.now s.phase _))
+          · (refine keeps_trans ?_ (keeps_of_core _ _ (core_setProg _ i _)); exact keeps_of_core s _ rfl)
+          · exact hcont _ _ (keeps_of_core s _ rfl)
+    | waiting q =>
+      simp only [runProg]
+      generalize condCoop s q = coop
+      split
+      · exact keeps_refl s
+      · split
+        · exact keeps_defer s k i
+        · split
+          · exact hcont _ _ (keeps_of_core s _ rfl)
+          · exact keeps_refl s
     | join t =>
+      simp only [runProg]
+      split
+      · exact keeps_refl s
+      · split
+        · exact keeps_refl s
+        · split
+          · exact keeps_defer s k i
+          · split
+            · exact hcont _ s (keeps_refl s)
+            · (refine keeps_trans ?_ (keeps_of_core _ _ (core_setProg _ i _)); exact keeps_of_core s _ rfl)
+    | joining t =>
       simp only [runProg]
       split
       · exact keeps_refl s
       · split
         · exact keeps_defer s k i
         · split
-          · have h1 := keeps_trans hsp
-              (keeps_mono (fun hr => by rw [hsp.2.1]; exact hr) (keeps_logAt (setProg s i r) i rdy org))
-            exact keeps_trans h1 (keeps_mono (fun _ => h1.2.1.symm) (ih _ s.now s.phase _))
-          · exact keeps_of_core s _ rfl
+          · exact hcont _ s (keeps_refl s)
+          · exact keeps_refl s
     | sleep d =>
       simp only [runProg]
       split
       · rename_i hlt
         exact keeps_trans (keeps_of_core s _ (core_setProg s i _)) (keeps_addTimer _ _ (by
           rw [now_of_core _ _ (core_setProg s i _)]; exact hlt))
-      · have h1 := keeps_trans hsp
-          (keeps_mono (fun hr => by rw [hsp.2.1]; exact hr) (keeps_logAt (setProg s i r) i rdy org))
-        exact keeps_trans h1 (keeps_mono (fun _ => h1.2.1.symm) (ih _ s.now s.phase _))
+      · exact hcont c s (keeps_refl s)
     | sleepUntil t =>
       simp only [runProg]
       split
       · rename_i hlt
         exact keeps_trans (keeps_of_core s _ (core_setProg s i _)) (keeps_addTimer _ _ (by
           rw [now_of_core _ _ (core_setProg s i _)]; exact hlt))
-      · have h1 := keeps_trans hsp
-          (keeps_mono (fun hr => by rw [hsp.2.1]; exact hr) (keeps_logAt (setProg s i r) i rdy org))
-        exact keeps_trans h1 (keeps_mono (fun _ => h1.2.1.symm) (ih _ s.now s.phase _))
+      · exact hcont c s (keeps_refl s)
     | sleeping t =>
       simp only [runProg]
       split
       · exact keeps_refl s
-      · have h1 := keeps_trans hsp
-          (keeps_mono (fun hr => by rw [hsp.2.1]; exact hr) (keeps_logAt (setProg s i r) i rdy org))
-        exact keeps_trans h1 (keeps_mono (fun _ => h1.2.1.symm) (ih _ s.now s.phase _))
+      · exact hcont c s (keeps_refl s)
 
 theorem keeps_pollTask (P : Params) (e : Entry) (s : St) :
-    Keeps (e.ready = s.now) s (pollTask P e s) := by
+    Keeps (e.origin = .foreign ∨ e.ready = s.now) s (pollTask P e s) := by
   unfold pollTask
   split
   · exact keeps_refl s
@@ -281,15 +330,15 @@ theorem keeps_pollTask (P : Params) (e : Entry) (s : St) :
     · exact keeps_refl s
     · split
       · exact keeps_runProg _ _ _ _ _ _ _
-      · have h1 : Keeps (e.ready = s.now) s (markPolled s e.idx) :=
+      · have h1 : Keeps (e.origin = .foreign ∨ e.ready = s.now) s (markPolled s e.idx) :=
           keeps_of_core s _ (core_markPolled s e.idx)
         have h2 := keeps_trans h1
           (keeps_mono (fun he => by rw [h1.2.1]; exact he) (keeps_logAt _ e.idx e.ready e.origin))
-        exact keeps_trans h2 (keeps_mono (fun _ => h2.2.1.symm) (keeps_runProg _ _ _ _ _ _ _))
+        exact keeps_trans h2 (keeps_mono (fun _ => Or.inr h2.2.1.symm) (keeps_runProg _ _ _ _ _ _ _))
 
 /-- what is left after a `pop` satisfies `Inv`, and the popped entry became runnable now -/
 theorem inv_pop (P : Params) (q : Kind) (s s' : St) (e : Entry) (h : pop P q s = some (e, s')) (hi : Inv s) :
-    Inv s' ∧ e.ready = s'.now := by
+    Inv s' ∧ (e.origin = .foreign ∨ e.ready = s'.now) := by
   obtain ⟨h1, h2, h3, h4, h5, h6⟩ := hi
   rcases pop_some P q s s' e h with ⟨r, hq, rfl⟩ | ⟨r, hq, rfl⟩ | ⟨r, hq, rfl⟩
   · exact ⟨⟨fun x hx => h1 x (by rw [hq]; exact List.mem_cons_of_mem _ hx), h2, h3, h4, h5, h6⟩,
@@ -391,6 +440,13 @@ theorem runH_inv : ∀ (h : List Instr) (s : St), Inv s → Inv (runH h s) ∧ (
       have h1 : Keeps True s (wakeCond s k) := keeps_wakeCond s k
       have h2 := ih _ (h1.1 trivial hi)
       exact ⟨h2.1, h2.2.trans h1.2.1⟩
+    | notifyAll k =>
+      simp only [runH]
+      have h1 : Keeps True s (wakeAll s k) := keeps_wakeAll s k
+      have h2 := ih _ (h1.1 trivial hi)
+      exact ⟨h2.1, h2.2.trans h1.2.1⟩
+    | waiting _ => simp only [runH]; exact ih s hi
+    | joining _ => simp only [runH]; exact ih s hi
     | wait _ => simp only [runH]; exact ih s hi
     | yield => simp only [runH]; exact ih s hi
     | resume => simp only [runH]; exact ih s hi
@@ -409,7 +465,7 @@ theorem foldl_push_inv (l : List Entry) :
     intro s hp hi hf hl
     simp only [List.foldl_cons]
     have hk := keeps_pushEntry s { a with origin := .flush }
-    refine ih _ (hk.2.2.2.1.trans hp) (hk.1 (hl a List.mem_cons_self) hi) (hk.2.2.2.2 (Or.inr hp) hf) ?_
+    refine ih _ (hk.2.2.2.1.trans hp) (hk.1 (Or.inr (hl a List.mem_cons_self)) hi) (hk.2.2.2.2 (Or.inr hp) hf) ?_
     intro e he
     rw [hk.2.1]
     exact hl e (List.mem_cons_of_mem _ he)
@@ -525,23 +581,29 @@ theorem foldl_pushT_inv (l : List Timer) :
     intro s hi hl
     simp only [List.foldl_cons]
     have hk := keeps_pushEntry s ⟨a.kind, a.idx, a.deadline, .timer⟩
-    refine ih _ (hk.1 (hl a List.mem_cons_self) hi) ?_
+    refine ih _ (hk.1 (Or.inr (hl a List.mem_cons_self)) hi) ?_
     intro tm he
     rw [hk.2.1]
     exact hl tm (List.mem_cons_of_mem _ he)
 
-/-- `activate()` at an instant that no pending deadline precedes, from a state with nothing runnable: the woken
-timers' deadline is this very instant -/
-theorem activate_inv (t : Nat) (s : St) (hq : Quiet s) (ho : OnTime s)
+/-- nothing is deferred, and whatever is queued was woken by another module's event -/
+def Pend (s : St) : Prop :=
+  s.dq = [] ∧ (∀ e ∈ s.rq, e.origin = .foreign) ∧ (∀ e ∈ s.iq, e.origin = .foreign) ∧
+  (∀ e ∈ s.lq, e.origin = .foreign)
+
+theorem pend_of_quiet (s : St) (h : Quiet s) : Pend s := by
+  obtain ⟨h1, h2, h3, h4⟩ := h
+  refine ⟨h4, ?_, ?_, ?_⟩ <;> intro e he <;> simp_all
+
+/-- `activate()` at an instant that no pending deadline precedes, from a state in which only foreign wakes are
+pending: the woken timers' deadline is this very instant -/
+theorem activate_inv (t : Nat) (s : St) (hq : Pend s) (ho : OnTime s)
     (hns : ∀ tm ∈ s.timers, t ≤ tm.deadline) : Inv (activate t s) := by
   unfold activate
   obtain ⟨h1, h2, h3, h4⟩ := hq
   refine foldl_pushT_inv _ _ ?_ ?_
-  · refine ⟨?_, ?_, ?_, ?_, ho, ?_⟩
+  · refine ⟨fun e he => Or.inl (h2 e he), fun e he => Or.inl (h3 e he), fun e he => Or.inl (h4 e he), ?_, ho, ?_⟩
     · intro e he; simp [h1] at he
-    · intro e he; simp [h2] at he
-    · intro e he; simp [h3] at he
-    · intro e he; simp [h4] at he
     · intro tm htm
       simp only [List.mem_filter, decide_eq_true_eq] at htm
       exact htm.2
@@ -551,9 +613,10 @@ theorem activate_inv (t : Nat) (s : St) (hq : Quiet s) (ho : OnTime s)
     show tm.deadline = t
     omega
 
-theorem handle_inv (P : Params) (single : Bool) (ev : Ev) (s : St) (hq : Quiet s) (ho : OnTime s)
-    (hns : ∀ tm ∈ s.timers, ev.time ≤ tm.deadline) : Inv (handle P single ev s) := by
+theorem handle_inv (P : Params) (single : Bool) (ev : Ev) (s : St) (hf : ev.foreign = false) (hq : Pend s)
+    (ho : OnTime s) (hns : ∀ tm ∈ s.timers, ev.time ≤ tm.deadline) : Inv (handle P single ev s) := by
   unfold handle
+  simp only [hf, Bool.false_eq_true, if_false]
   have h0 := activate_inv ev.time s hq ho hns
   by_cases hc : ev.consumed = true
   · simp only [hc, if_true]
@@ -565,6 +628,120 @@ theorem handle_inv (P : Params) (single : Bool) (ev : Ev) (s : St) (hq : Quiet s
     cases single
     · exact exec_inv P _ _ h0
     · exact (turn1_inv P _ _ h0).1
+
+/-! ### another module's event: only foreign-stamped entries are added -/
+
+/-- phase, deferred wakers, log and timers are unchanged; in phase `.foreign` queued entries stay foreign-stamped -/
+def KF (s s' : St) : Prop :=
+  s'.phase = s.phase ∧ s'.dq = s.dq ∧ s'.log = s.log ∧ s'.timers = s.timers ∧
+  (s.phase = .foreign →
+    ((∀ e ∈ s.rq, e.origin = .foreign) ∧ (∀ e ∈ s.iq, e.origin = .foreign) ∧ (∀ e ∈ s.lq, e.origin = .foreign)) →
+    ((∀ e ∈ s'.rq, e.origin = .foreign) ∧ (∀ e ∈ s'.iq, e.origin = .foreign) ∧ (∀ e ∈ s'.lq, e.origin = .foreign)))
+
+theorem kf_refl (s : St) : KF s s := ⟨rfl, rfl, rfl, rfl, fun _ h => h⟩
+
+theorem kf_trans {a b c : St} (h1 : KF a b) (h2 : KF b c) : KF a c :=
+  ⟨h2.1.trans h1.1, h2.2.1.trans h1.2.1, h2.2.2.1.trans h1.2.2.1, h2.2.2.2.1.trans h1.2.2.2.1,
+    fun hp h => h2.2.2.2.2 (by rw [h1.1]; exact hp) (h1.2.2.2.2 hp h)⟩
+
+theorem kf_enqueue (s : St) (k : Kind) (i : Nat) : KF s (enqueue s k i) := by
+  unfold enqueue pushEntry
+  cases k
+  · simp only
+    split
+    · refine ⟨rfl, rfl, rfl, rfl, fun hp h => ⟨h.1, ?_, h.2.2⟩⟩
+      intro e he
+      simp only [List.mem_append, List.mem_singleton] at he
+      rcases he with he | he
+      · exact h.2.1 e he
+      · subst he; exact hp
+    · refine ⟨rfl, rfl, rfl, rfl, fun hp h => ⟨?_, h.2.1, h.2.2⟩⟩
+      intro e he
+      simp only [List.mem_append, List.mem_singleton] at he
+      rcases he with he | he
+      · exact h.1 e he
+      · subst he; exact hp
+  · have hl : ∀ (l : Bool), KF s { s with lq := s.lq ++ [⟨.loc, i, s.now, s.phase⟩], lflag := l } := by
+      intro l
+      refine ⟨rfl, rfl, rfl, rfl, fun hp h => ⟨h.1, h.2.1, ?_⟩⟩
+      intro e he
+      simp only [List.mem_append, List.mem_singleton] at he
+      rcases he with he | he
+      · exact h.2.2 e he
+      · subst he; exact hp
+    simp only
+    split
+    · exact hl true
+    · exact hl s.lflag
+
+theorem kf_of_same (s s' : St) (h1 : s'.phase = s.phase) (h2 : s'.dq = s.dq) (h3 : s'.log = s.log)
+    (h4 : s'.timers = s.timers) (h5 : s'.rq = s.rq) (h6 : s'.iq = s.iq) (h7 : s'.lq = s.lq) : KF s s' :=
+  ⟨h1, h2, h3, h4, fun _ h => by rw [h5, h6, h7]; exact h⟩
+
+theorem kf_grant (s : St) (wk : Kind) (wi : Nat) : KF s (grant s wk wi) := by
+  unfold grant
+  split
+  · exact kf_enqueue _ _ _
+  · (refine kf_trans ?_ (kf_enqueue _ _ _); exact kf_of_same s _ rfl rfl rfl rfl rfl rfl rfl)
+
+theorem kf_grantAll : ∀ (l : List (Kind × Nat)) (s : St), KF s (grantAll l s) := by
+  intro l
+  induction l with
+  | nil => intro s; exact kf_refl s
+  | cons a l ih =>
+    intro s
+    obtain ⟨wk, wi⟩ := a
+    simp only [grantAll]
+    exact kf_trans (kf_grant s wk wi) (ih _)
+
+theorem kf_wakeCond (s : St) (k : Nat) : KF s (wakeCond s k) := by
+  unfold wakeCond
+  split
+  · exact kf_refl s
+  · split
+    · exact kf_of_same s _ rfl rfl rfl rfl rfl rfl rfl
+    · (refine kf_trans ?_ (kf_grant _ _ _); exact kf_of_same s _ rfl rfl rfl rfl rfl rfl rfl)
+
+theorem kf_wakeAll (s : St) (k : Nat) : KF s (wakeAll s k) := by
+  unfold wakeAll
+  split
+  · exact kf_refl s
+  · (refine kf_trans ?_ (kf_grantAll _ _); exact kf_of_same s _ rfl rfl rfl rfl rfl rfl rfl)
+
+theorem kf_spawnTask (s : St) (t : Nat) : KF s (spawnTask s t) := by
+  unfold spawnTask
+  split
+  · exact kf_refl s
+  · split
+    · exact kf_refl s
+    · (refine kf_trans ?_ (kf_enqueue _ _ _); exact kf_of_same s _ rfl rfl rfl rfl rfl rfl rfl)
+
+theorem kf_runH : ∀ (h : List Instr) (s : St), KF s (runH h s) := by
+  intro h
+  induction h with
+  | nil => intro s; exact kf_refl s
+  | cons ins r ih =>
+    intro s
+    cases ins <;> simp only [runH]
+    case spawn t => exact kf_trans (kf_spawnTask s t) (ih _)
+    case wake k => exact kf_trans (kf_wakeCond s k) (ih _)
+    case notifyAll k => exact kf_trans (kf_wakeAll s k) (ih _)
+    all_goals exact ih s
+
+/-- an event of another module: what it wakes is stamped `.foreign`; nothing else changes -/
+theorem handle_foreign (P : Params) (single : Bool) (ev : Ev) (s : St) (hf : ev.foreign = true) (hq : Pend s)
+    (ho : OnTime s) :
+    Pend (handle P single ev s) ∧ OnTime (handle P single ev s) ∧ (handle P single ev s).timers = s.timers := by
+  unfold handle
+  simp only [hf, if_true]
+  have hk := kf_runH ev.prog { s with now := ev.time, phase := .foreign }
+  obtain ⟨h1, h2, h3, h4⟩ := hq
+  have hq' := hk.2.2.2.2 rfl ⟨h2, h3, h4⟩
+  refine ⟨⟨?_, hq'.1, hq'.2.1, hq'.2.2⟩, ?_, hk.2.2.2.1⟩
+  · show (runH ev.prog _).dq = []
+    rw [hk.2.1]; exact h1
+  · show ∀ x ∈ (runH ev.prog _).log, _
+    rw [hk.2.2.1]; exact ho
 
 theorem minL_spec : ∀ (l : List Nat) (m : Nat), minL l = some m → m ∈ l ∧ ∀ x ∈ l, m ≤ x := by
   intro l
